@@ -116,6 +116,81 @@ def struct_param(fn):
     return None, None
 
 
+CMP = ('Lt', 'Le', 'Gt', 'Ge', 'Eq', 'Ne')
+COUNT_READS = ('read_usize', 'read_u8', 'read_u16', 'read_u32', 'read_u64')
+
+
+def _const_side(n):
+    """an expression made of literals, constants and casts only (no local, no call on the stream)"""
+    saw = False
+    for x in walk(n):
+        k = x.get('k')
+        if k in ('Local', 'MCall', 'Field', 'Index'):
+            return False
+        if k == 'Call':
+            return False
+        if k in ('Lit', 'Def'):
+            saw = True
+    return saw
+
+
+def _norm(n):
+    if isinstance(n, dict):
+        return {k: _norm(v) for k, v in n.items() if k not in ('s', 't', 'ta', 'id')}
+    if isinstance(n, list):
+        return [_norm(x) for x in n]
+    return n
+
+
+def reader_only_bounds(F, ck, pairs, sp):
+    """R17.8: a decoder may refuse a stream for being too short or for carrying a tag no writer emits, but a decoded COUNT (a number
+    read from the stream that bounds a loop or an allocation) compared against a fixed constant on the way to an Err is a bound
+    that only the reader knows about, unless the writer compares the length it writes against the same constant."""
+    import json
+    ck.rule('R17.8', 'no reader rejects a decoded count by comparing it with a fixed constant unless the matching writer enforces the same constant (a value the writer encodes must be readable)')
+    todo = [(name, rf, wf) for name, rf, wf in pairs]
+    for (owner, tr), v in sorted(sp.items(), key=str):
+        if len(v) == 2:
+            todo.append((owner, v['deserialize'], v['serialize']))
+    nguards = ncounts = 0
+    for name, rf, wf in todo:
+        if rf.body is None:
+            continue
+        counts = {}
+        for x in walk(rf.body):
+            if x.get('k') == 'Let' and 'i' in x and x['p'].get('k') == 'Bind':
+                i = x['i']
+                while i.get('k') in ('Try', 'Cast'):
+                    i = i['e']
+                if i.get('k') == 'MCall' and i.get('n') in COUNT_READS:
+                    counts[x['p']['id']] = x['p']['n']
+        ncounts += len(counts)
+        for x in walk(rf.body):
+            if x.get('k') != 'If':
+                continue
+            errs = flow.diverges_with_err(x['th']) or flow.tail_is_err(x['th']) or (x.get('el') is not None and (flow.diverges_with_err(x['el']) or flow.tail_is_err(x['el'])))
+            if not errs:
+                continue
+            nguards += 1
+            for c in walk(x['c']):
+                if c.get('k') != 'Bin' or c.get('op') not in CMP:
+                    continue
+                for a, b in ((c['l'], c['r']), (c['r'], c['l'])):
+                    ids = {y['id'] for y in walk(a) if y.get('k') == 'Local'}
+                    if not (ids & set(counts)) or not _const_side(b):
+                        continue
+                    cn = json.dumps(_norm(b), sort_keys=True)
+                    wok = wf.body is not None and any(y.get('k') == 'Bin' and y.get('op') in CMP and
+                                                     (json.dumps(_norm(y['l']), sort_keys=True) == cn or json.dumps(_norm(y['r']), sort_keys=True) == cn)
+                                                     for y in walk(wf.body))
+                    cnt = counts[sorted(ids & set(counts))[0]]
+                    ck.ob('R17.8', 'bound:%s:%s' % (name, cnt), wok, 'the writer enforces the same constant' if wok else
+                          'READER-ONLY BOUND: %s refuses a stream whose decoded count `%s` fails a comparison with a fixed constant, but %s writes any length without that check: '
+                          'an object the writer accepts and encodes is refused when read back' % (rf.qual, cnt, wf.qual), x.get('s'))
+    ck.floor('R17.8', 'decoded counts in readers (locals bound to read_usize / read_uN)', ncounts, 60)
+    ck.floor('R17.8', 'Err-returning guards in readers examined', nguards, 1)
+
+
 def run(F, ck, tier):
     ck.rule('R17.1', 'reader/writer grammar agreement (kind sequence, loop/branch shape) after expanding helpers to byte-level primitives')
     ck.rule('R17.2', 'field order agreement between writer and reader (through the reader\'s result literal / constructor)')
@@ -169,6 +244,7 @@ def run(F, ck, tier):
     ck.rule('R17.7', 'readers and writers that walk the FRI arity schedule never multiply the position by the arity at that position (a uniform-arity assumption: mixed schedules would be decoded with other indices than they were encoded with)')
     from . import c16
     c16.uniform_arity(F, ck, 'R17.7')
+    reader_only_bounds(F, ck, pairs, sp)
     # ---------------------------------------------------------------- R17.6
     ck.rule('R17.6', 'a decoder that reads circuit data and a proof from one stream reads the proof with THAT circuit data (the writer stored them together), not with the enclosing circuit\'s')
     PROOF_READS = {'read_proof_with_public_inputs', 'read_compressed_proof_with_public_inputs', 'read_proof', 'read_compressed_proof'}
